@@ -114,7 +114,10 @@ type ClientProg struct {
 
 // Knobs are the per-run configuration choices (swarm).
 type Knobs struct {
-	Nodes      int    `json:"nodes"`
+	Nodes int `json:"nodes"`
+	// Databases: numbered databases configured on every node (and on the C14
+	// reference); 0 = 1.
+	Databases  int    `json:"databases,omitempty"`
 	ShardNum   int    `json:"shard_num"`
 	SnapCount  uint64 `json:"snap_count"`
 	CatchUpN   uint64 `json:"catch_up_n"`
